@@ -93,6 +93,7 @@ class Interp:
         self.B = B
         self.str_consts = {}
         self.spec_builtins = set()
+        self.final_frames = {}
         self.in_callee = 0
         self.cur_line = None
 
@@ -116,6 +117,12 @@ class Interp:
                 rb = self.hobj(b).meta.get("snapshot_of", b.ref)
                 return mkbool(ra == rb)
             return FALSE
+        if name == "final":
+            fr = self.final_frames.get(args[0].c if len(args) > 1 else None) or self.final_frames.get(None)
+            nm = args[-1].c
+            if fr is None or nm not in fr.locals:
+                raise Unsupported(f"final({nm!r}): no such local at return")
+            return fr.locals[nm]
         if name == "events":
             return self.new_list(list(self.path.ghost.get("events", {}).get(args[0].c, [])))
         raise Unsupported(f"spec builtin {name}")
@@ -400,42 +407,26 @@ class Interp:
         # short circuit; merged into one term when the operands are pure
         is_and = isinstance(node.op, ast.And)
         if all(self.pure_expr(v, fr) for v in node.values[1:]):
-            vals = [self.ev(node.values[0], fr)]
-            conds = []
-            acc = vals[0]
-            # python returns one of the operands; model: if all are bool-like produce a bool term
-            ts = [ops.truth(self, vals[0])]
-            self.path.solver.push()
-            saved = len(self.path.pc)
-            ok = True
-            try:
-                for v in node.values[1:]:
-                    t = ts[-1].term()
-                    g = t if is_and else z3.Not(t)
-                    if not self.path.feasible(g):
-                        break
-                    self.path.assume(g)
-                    x = self.ev(v, fr)
-                    vals.append(x)
-                    ts.append(ops.truth(self, x))
-            except PyRaise:
-                ok = False
-                raise
-            finally:
-                if ok:
-                    self.path.solver.pop()
-                    del self.path.pc[saved:]
-                    for t in self.path.pc[:saved]:
-                        pass
-            if all(isinstance(x, VBool) for x in vals):
-                terms = [x.term() for x in vals]
-                return VBool(t=z3.And(terms) if is_and else z3.Or(terms))
-            # general: value is first operand whose truth decides
-            res = vals[-1]
-            for x, t in zip(reversed(vals[:-1]), reversed(ts[:-1])):
-                c = t.term()
-                res = ops.union_of([(z3.Not(c), x), (c, res)]) if is_and else ops.union_of([(c, x), (z3.Not(c), res)])
-            return res
+            def rest(k, fr=fr):
+                """value of the operands k.. (short circuit), evaluated under the guards of the earlier ones"""
+                x = self.ev(node.values[k], fr)
+                if k == len(node.values) - 1:
+                    return x
+                t = ops.truth(self, x)
+                if t.c is not None:
+                    go_on = t.c if is_and else not t.c
+                    return rest(k + 1) if go_on else x
+                g = t.t if is_and else z3.Not(t.t)
+                holder = {}
+                thunk = ast.Constant(value=None)
+                try:
+                    y = self._under_fn(g, lambda: rest(k + 1))
+                except _InfeasibleBranch:
+                    return x
+                if isinstance(x, VBool) and isinstance(y, VBool):
+                    return VBool(t=z3.And(t.t, y.term()) if is_and else z3.Or(t.t, y.term()))
+                return ops.union_of([(g, y), (z3.Not(g), x)])
+            return rest(0)
         v = None
         for k, e in enumerate(node.values):
             v = self.ev(e, fr)
@@ -499,30 +490,76 @@ class Interp:
         return self.ev(node.orelse, fr)
 
     def _under(self, c, node, fr, narrow=True):
-        """evaluate node with c temporarily assumed; an exception keeps the assumption"""
-        self.path.solver.push()
-        saved = len(self.path.pc)
+        """evaluate node with c temporarily assumed.
+
+        Decisions taken inside the scope (forks) are kept afterwards as facts conditional on c;
+        an exception keeps the assumption itself (the whole path then continues under c)."""
+        P = self.path
+        P.solver.push()
+        saved = len(P.pc)
         try:
-            self.path.assume(c)
+            P.assume(c)
         except PathEnd:
-            self.path.solver.pop()
-            del self.path.pc[saved:]
+            P.solver.pop()
+            del P.pc[saved:]
             raise _InfeasibleBranch()
+        base = len(P.pc)
         try:
             v = self.ev(node, fr)
             if narrow:
                 v = self.narrow(v)
         except PyRaise:
-            extra = self.path.pc[saved:]
-            self.path.solver.pop()
-            del self.path.pc[saved:]
-            if not self.path.feasible(z3.And(extra) if extra else True):
+            extra = P.pc[saved:]
+            P.solver.pop()
+            del P.pc[saved:]
+            if not P.feasible(z3.And(extra) if extra else True):
                 raise _InfeasibleBranch()
             for x in extra:
-                self.path.assume(x)
+                P.assume(x)
             raise
-        self.path.solver.pop()
-        del self.path.pc[saved:]
+        except PathEnd:
+            P.solver.pop()
+            del P.pc[saved:]
+            raise
+        inner = P.pc[base:]
+        P.solver.pop()
+        del P.pc[saved:]
+        for x in inner:
+            P.assume(z3.Implies(c, x))
+        return v
+
+    def _under_fn(self, c, fn):
+        """like _under for a python thunk"""
+        P = self.path
+        P.solver.push()
+        saved = len(P.pc)
+        try:
+            P.assume(c)
+        except PathEnd:
+            P.solver.pop()
+            del P.pc[saved:]
+            raise _InfeasibleBranch()
+        base = len(P.pc)
+        try:
+            v = fn()
+        except PyRaise:
+            extra = P.pc[saved:]
+            P.solver.pop()
+            del P.pc[saved:]
+            if not P.feasible(z3.And(extra) if extra else True):
+                raise _InfeasibleBranch()
+            for x in extra:
+                P.assume(x)
+            raise
+        except (PathEnd, _InfeasibleBranch):
+            P.solver.pop()
+            del P.pc[saved:]
+            raise
+        inner = P.pc[base:]
+        P.solver.pop()
+        del P.pc[saved:]
+        for x in inner:
+            P.assume(z3.Implies(c, x))
         return v
 
     def ev_Compare(self, node, fr):
@@ -879,6 +916,8 @@ class Interp:
         self.inline_depth += 1
         if self.inline_depth > 40:
             raise Unsupported("inline depth exceeded (recursion?)")
+        if self.verifying is not None and fv.qualname == self.verifying.split("#")[0] and None not in self.final_frames:
+            self.final_frames[None] = fr
         try:
             self.exec_block(node.body, fr)
         except ReturnSig as r:
